@@ -6,7 +6,7 @@ import ast
 
 from ..astutil import path_of, unparse, walk_scope, walk_stmts
 from ..report import Ctx
-from ..suspend import StaleTime, emission_calls, event_class_names, is_time_source, node_suspension, zero_delay_wait_loops
+from ..suspend import StaleTime, emission_calls, event_class_names, is_time_source, node_suspension, time_bases, zero_delay_wait_loops
 from .common import need
 
 SCOPE = ("happysimulator/components/", "happysimulator/faults/", "happysimulator/load/", "happysimulator/core/",
@@ -32,9 +32,72 @@ NOT_DECIDED = [
 ASSUMPTIONS = ["a constant-zero delay cannot advance the clock; any other suspension may", "handlers named with an `event` parameter receive the delivered event (its .time equals now at entry)"]
 
 
+def _computed_delay(fn, t: ast.AST, event_params) -> str | None:
+    """Source text of the delay added to a fresh base when that delay is computed by subtraction or min() without a positive floor."""
+    from ..suspend import is_time_source as its
+
+    def expand(e, depth=0):
+        if depth > 6:
+            return e
+        if isinstance(e, ast.Name) and e.id not in fn.params():
+            defs = [s_.value for s_ in walk_stmts(fn.node.body) if isinstance(s_, (ast.Assign, ast.AnnAssign)) and s_.value is not None
+                    and any(path_of(t_) == e.id for t_ in (s_.targets if isinstance(s_, ast.Assign) else [s_.target]))]
+            if len(defs) == 1:
+                return expand(defs[0], depth + 1)
+        return e
+
+    def delay_of(e):
+        e = expand(e)
+        if isinstance(e, ast.BinOp) and isinstance(e.op, ast.Add):
+            for base, d in ((e.left, e.right), (e.right, e.left)):
+                if any(its(n, event_params) for n in walk_scope(expand(base))):
+                    return d
+        if isinstance(e, ast.Call) and (path_of(e.func) or "").split(".")[-1] in ("from_seconds",) and e.args:
+            return delay_of(e.args[0])
+        return None
+
+    d = delay_of(t)
+    if d is None:
+        return None
+    d = expand(d)
+    while isinstance(d, ast.Call) and (path_of(d.func) or "").split(".")[-1] in ("from_seconds", "Duration", "float") and d.args:
+        d = expand(d.args[0])
+    if isinstance(d, ast.Call) and path_of(d.func) == "max" and any(isinstance(a, ast.Constant) and isinstance(a.value, (int, float)) and a.value > 0 for a in d.args):
+        return None
+    risky = False
+    for n in walk_scope(d):
+        n2 = expand(n) if isinstance(n, ast.Name) else n
+        for m in walk_scope(n2):
+            if isinstance(m, ast.BinOp) and isinstance(m.op, ast.Sub):
+                risky = True
+            if isinstance(m, ast.Call) and path_of(m.func) == "min":
+                risky = True
+    return unparse(d) if risky else None
+
+
 def run(ctx: Ctx) -> None:
     prog = ctx.prog
     ev_names = event_class_names(prog)
+    # attributes that hold recorded instants: somewhere they are assigned a value whose base is a fresh time source
+    ts_attrs: set[str] = set()
+    for fn in prog.all_functions("happysimulator/"):
+        if not fn.module.relpath.startswith(SCOPE):
+            continue
+        evp = {p for p in fn.params() if p in ("event", "evt", "ev", "request_event")}
+        for st in walk_stmts(fn.node.body):
+            if isinstance(st, (ast.Assign, ast.AnnAssign)) and st.value is not None:
+                for t in (st.targets if isinstance(st, ast.Assign) else [st.target]):
+                    if isinstance(t, ast.Attribute) and "fresh" in time_bases(fn, st.value, evp):
+                        ts_attrs.add(t.attr)
+        for c in [x for x in walk_scope(fn.node, include_root=False) if isinstance(x, ast.Call)]:
+            last = (path_of(c.func) or "").split(".")[-1]
+            if last.lstrip("_")[:1].isupper() and last not in ev_names:
+                for k in c.keywords:
+                    if k.arg and "fresh" in time_bases(fn, k.value, evp):
+                        ts_attrs.add(k.arg)
+    ts_attrs -= {"time", "now"}
+    ctx.stats["timestamp_attributes"] = len(ts_attrs)
+    need(len(ts_attrs) >= 20, f"C07-5: only {len(ts_attrs)} timestamp-holding attributes recognised")
     hist: dict[str, int] = {}
     n_sites = 0
     n_gen = 0
@@ -50,14 +113,14 @@ def run(ctx: Ctx) -> None:
         # ---- emission classification + `now - x`
         event_params = {p for p in fn.params() if p in ("event", "evt", "ev", "request_event")}
         st_uses = {}
-        if is_gen and ems:
+        if is_gen:
             ff = ctx.flow(fn)
             stt = StaleTime(prog, fn, ff.cfg, ev_names)
             st_uses = {id(u.call): u for u in stt.uses}
             advancing = any(node_suspension(prog, fn, n) == "advance" for n in ff.cfg.nodes if n.kind in ("stmt", "test", "for", "with"))
             if advancing:
                 stale_fns += 1
-                definite = [u for u in stt.uses if u.exact]
+                definite = [u for u in stt.uses if u.exact or u.kind == "object"]
                 if not definite:
                     ctx.ob("C07-1", "G5", fn, None, True,
                            f"{len(ems)} emission site(s) after/around suspensions: no timestamp is a time value captured before a clock-advancing suspension")
@@ -87,6 +150,23 @@ def run(ctx: Ctx) -> None:
                 else:
                     cls = "expression"
             hist[cls] = hist.get(cls, 0) + 1
+            # C07-5: a timestamp derived from a *recorded* instant (not re-read from the clock, not clamped by max(now, …))
+            if t is not None and not fn.module.relpath.startswith("happysimulator/core/"):
+                bases = time_bases(fn, t, event_params)
+                stored = sorted(b for b in bases if b.startswith("stored:") and b.split(".")[-1] in ts_attrs)
+                if stored:
+                    ctx.ob("C07-5", "G7", fn, f"Event(time={unparse(t)})", False,
+                           f"emission timestamp `{unparse(t)}` can be based on the recorded instant {stored} (captured at some earlier event) instead of the current "
+                           "time: whenever more time has passed than the added delay the event is stamped in the past", node=c)
+                # C07-4: an event an entity schedules to itself must lie strictly ahead unless it is a one-off: a delay computed by
+                # subtraction / min() can reach zero and re-deliver at the same instant without bound
+                tgt = [path_of(k.value) for k in c.keywords if k.arg == "target"]
+                if tgt == ["self"] and "fresh" in bases:
+                    delay_txt = _computed_delay(fn, t, event_params)
+                    if delay_txt:
+                        ctx.ob("C07-4", "G5", fn, f"Event(time={unparse(t)}) [self-reschedule]", False,
+                               f"the entity re-schedules itself after `{delay_txt}`, a delay computed by subtraction/min() with no positive floor: it can truncate to zero "
+                               "nanoseconds and the run then delivers at one frozen instant forever", node=c)
             # now - x anywhere
             if t is not None:
                 for n in walk_scope(t):
@@ -109,6 +189,8 @@ def run(ctx: Ctx) -> None:
                     ctx.ob("C07-3", "G5", fn, w.loop, False,
                            f"zero-delay wait loop: `while {unparse(w.loop.test)}` only ever yields a constant 0 delay and nothing in its body changes the "
                            "condition, so the waiter re-runs at the same instant forever and the clock never reaches the event that would release it")
+    ctx.ob("C07-5", "G7", None, "package-wide recorded-instant scan", True, f"{n_sites} emission sites checked against {len(ts_attrs)} timestamp-holding attributes", relpath="happysimulator/")
+    ctx.ob("C07-4", "G5", None, "package-wide self-reschedule scan", True, "every self-targeted emission has a configured / clamped delay", relpath="happysimulator/")
     ctx.stats["emission_sites"] = n_sites
     ctx.stats["generators_scanned"] = n_gen
     ctx.stats["emission_time_histogram"] = hist  # type: ignore[assignment]
